@@ -96,6 +96,12 @@ def tlc_mc(module, cfg, tag, workers=4, timeout=1500, simulate=None, extra=None,
         res["depth"] = int(m.group(1))
     res["ok"] = ("Model checking completed. No error has been found." in out) or \
                 (simulate is not None and rc in (0, 124) and "Error:" not in out)
+    if ("TLC threw an unexpected exception" in out or "Parsing or semantic analysis failed" in out
+            or "was a Java StackOverflowError" in out or "java.lang.OutOfMemoryError" in out):
+        sys.stdout.write(out[-3000:])
+        raise ToolError("tlc could not evaluate %s/%s (spec or tool error, not a verdict)" % (module, cfg))
+    if rc == 124 and simulate is None:
+        raise ToolError("tlc timed out on %s/%s" % (module, cfg))
     if not res["ok"]:
         m = re.search(r"Error: (.*?)(?:\n\n|\Z)", out, re.S)
         res["error"] = (m.group(1) if m else out[-1500:])[:3000]
